@@ -74,6 +74,10 @@ class Excel:
         handle_cell(first, self._titles)
         handle_cell(second, self._titles)
 
+        if base.row is None and first.row is not None:
+            # the base is given as a whole column (C:C) while the pattern range has rows: the base starts in the first row
+            base.row = 0
+
         return Cell(base.title, base.column + (second.column - first.column), base.row + (second.row - first.row) if first.row is not None or second.row is not None else None)
 
     def _get_vertical_range(self, first: Cell, second: Cell) -> list:
